@@ -110,9 +110,9 @@ class SmallSetInterp {
   void check_no_alloc(bool before, bool after, const char *what) {
     if (!before || !after || w_threw) return;
     if (alloc_on_ledger<A>::value && w_dreq != 0)
-      violation(P05, "%s: %lu allocator request(s) although no operand ever held more than N elements", what, (unsigned long)w_dreq);
+      violation(P05 | PSOFT, "%s: %lu allocator request(s) although no operand ever held more than N elements", what, (unsigned long)w_dreq);
     else if (w_dmal != 0 && mstats().installed)
-      violation(P05, "%s: %lu malloc/new call(s) although no operand ever held more than N elements", what, (unsigned long)w_dmal);
+      violation(P05 | PSOFT, "%s: %lu malloc/new call(s) although no operand ever held more than N elements", what, (unsigned long)w_dmal);
   }
 
   static int key_of(int b) { return b % KEYS; }
@@ -201,7 +201,7 @@ class SmallSetInterp {
     }
     // C05 flag
     if (static_cast<long>(m.size()) > N) s[i].flag = false;
-    if (s[i].flag && !inl) violation(P05, "%s: SmallSet that never held more than N=%ld elements keeps them outside the object", what, N);
+    if (s[i].flag && !inl) violation(P05 | PSOFT, "%s: SmallSet that never held more than N=%ld elements keeps them outside the object", what, N);
   }
   void mutated(int i) {
     ++ctx().case_mut_ops;
